@@ -191,6 +191,18 @@ impl PdfError {
             _ => false
         }
     }
+    /// The error says that object `id` does not exist: it is free, was never defined, or lies
+    /// beyond the cross-reference table (looking through `Try` / `Shared` wrappers).
+    /// A reference to such an object is a reference to null (ISO 32000-1, 7.3.10).
+    pub fn is_missing_object(&self, id: u64) -> bool {
+        match *self {
+            PdfError::FreeObject { obj_nr } | PdfError::NullRef { obj_nr } => obj_nr == id,
+            PdfError::UnspecifiedXRefEntry { id: entry } => entry == id,
+            PdfError::Try { ref source, .. } => source.is_missing_object(id),
+            PdfError::Shared { ref source } => source.is_missing_object(id),
+            _ => false
+        }
+    }
 }
 datasize::non_dynamic_const_heap_size!(PdfError, 0);
 
